@@ -246,7 +246,7 @@ def mutate_name(tpl, name, s, e, attrs, mut):
     placeholders."""
     if any(t[0] == "wild" for t in tpl["file"]):
         return None
-    if any(spec["kind"] == "default" or spec["regex"] == r"\w+"
+    if any(spec["kind"] == "default" or spec["regex"] == r"[A-Za-z0-9]+"
            for spec in tpl["user"].values()):
         return None
     prefix = "/data/vp/"
